@@ -36,7 +36,10 @@ EXPLANATION = (
     'R5: every StringNode built from a Python value outside the parser switches the escape decoding off or pre-encodes the value.  '
     'R6: the pattern process_default_options builds per key is <start anchor or nothing> + key + `=`..., and every function that applies it '
     '(followed from rewriter_func_kwargs and the remove_regex dispatch through the callback helper) uses re.match/fullmatch or a ^-anchored search.  '
-    'Does NOT decide whether option keys need regex escaping, nor that the dataflow DAG selects the right node, nor add/remove round trips, nor printing of statements other than expressions.')
+    'R2 also: decision table of visit_StringNode over is_fstring x is_multiline - the constant text around the value is an (empty) literal of exactly '
+    'that token kind.  R7: the lists __init__ creates and apply_changes consumes are emptied on every path between two apply_changes() calls of one '
+    'object, and a block that empties one empties all.  '
+    'Does NOT decide which node of a dataflow path gives the base directory of a relative source (get_relto), whether option keys need regex escaping, nor that the dataflow DAG selects the right node, nor add/remove round trips, nor printing of statements other than expressions.')
 ASSUMPTIONS = ['str.translate, str.splitlines, str.split and codecs unicode_escape behave as documented in the Python library reference',
                'BaseNode.accept dispatches to visit_<ClassName> of the visitor (checked as an anchor)',
                '+ on int/str/list/dict, * on int, and/or are associative in the Meson language (Syntax.md); a+(b-c) == (a+b)-c on integers']
@@ -220,40 +223,79 @@ def _flatten_add(e: ast.AST) -> T.List[ast.AST]:
     return [e]
 
 
-def _string_emission(ctx: RuleCtx, pmod: Module) -> T.Tuple[str, str, T.Optional[T.Dict[int, T.Any]], ast.AST]:
-    """(opening text, closing text, translate table or None for identity, construct) of the single-line branch of visit_StringNode."""
+Piece = T.Union[str, ast.AST]      # constant text, or the expression that carries node.value
+
+
+def _expand(parts: T.List[ast.AST], conds: T.Dict[str, bool], value_text: str) -> T.List[T.Tuple[T.Dict[str, bool], T.List[Piece]]]:
+    """Rows (conditions, pieces) of a `+` chain whose parts are constants, the value expression, or `c1 if atom else c2`."""
+    rows: T.List[T.Tuple[T.Dict[str, bool], T.List[Piece]]] = [(dict(conds), [])]
+    for part in parts:
+        nxt: T.List[T.Tuple[T.Dict[str, bool], T.List[Piece]]] = []
+        for cd, pcs in rows:
+            if isinstance(part, ast.Constant) and isinstance(part.value, str):
+                nxt.append((cd, pcs + [part.value]))
+            elif value_text in norm(part):
+                nxt.append((cd, pcs + [part]))
+            elif isinstance(part, ast.IfExp):
+                t, pol = SP._strip_not(part.test)
+                atom = norm(t)
+                for val, branch in ((True, part.body), (False, part.orelse)):
+                    truth = val if pol else not val
+                    if cd.get(atom, truth) != truth:
+                        continue
+                    for cd2, pcs2 in _expand(_flatten_add(branch), {**cd, atom: truth}, value_text):
+                        nxt.append((cd2, pcs + pcs2))
+            else:
+                raise Undecided(f'visit_StringNode: emitted piece {short(part)} is neither a constant, the value, nor a conditional constant')
+        rows = nxt
+    return rows
+
+
+def _string_emission_table(ctx: RuleCtx, pmod: Module) -> T.Dict[T.Tuple[bool, bool], T.Tuple[str, str, ast.AST, ast.AST]]:
+    """(is_fstring, is_multiline) -> (text before the value, text after it, value expression, construct): the decision table of
+    AstPrinter.visit_StringNode with the emitted text as a symbolic outcome (constant pieces around the value)."""
     fn = pmod.func('AstPrinter.visit_StringNode')
     node = [a.arg for a in fn.args.args][1]
-    found: T.List[T.Tuple[str, str, T.Optional[T.Dict[int, T.Any]], ast.AST]] = []
+    fa, ma, vt = f'{node}.is_fstring', f'{node}.is_multiline', f'{node}.value'
+    rows: T.List[T.Tuple[T.Dict[str, bool], T.List[Piece], ast.AST]] = []
     for p in enumerate_paths(fn.body):
-        cm = p.cond_map()
-        if cm.get(f'{node}.is_multiline') is not False:
-            continue
-        for st, c in [(st, c) for st in p.stmts() for c in walk_no_nested(st) if isinstance(c, ast.Call)]:
-            if not (isinstance(c.func, ast.Attribute) and c.func.attr in ('append', 'append_padded') and c.args):
-                continue
-            env = SP.sym_exec(p, stop=st)     # values of the locals here (an extracted `body = self.escape(...)`)
-            parts = _flatten_add(SP._Subst(env).visit(copy.deepcopy(c.args[0])))
-            vidx = [i for i, x in enumerate(parts) if f'{node}.value' in norm(x)]
-            if not vidx:
-                continue
-            if len(vidx) != 1 or not all(isinstance(x, ast.Constant) and isinstance(x.value, str) for i, x in enumerate(parts) if i != vidx[0]):
-                raise Undecided(f'visit_StringNode: emitted text {short(c.args[0])} is not constant + value + constant')
-            pre = ''.join(x.value for x in parts[:vidx[0]])      # type: ignore[attr-defined]
-            post = ''.join(x.value for x in parts[vidx[0] + 1:])  # type: ignore[attr-defined]
-            v = parts[vidx[0]]
-            table: T.Optional[T.Dict[int, T.Any]]
-            if norm(v) == f'{node}.value':
-                table = None
-            else:
-                table = _translate_table(ctx, pmod, v, f'{node}.value')
-            found.append((pre, post, table, c))
-    if not found:
-        raise Undecided('visit_StringNode: no emission of node.value on the single-line path')
-    first = found[0]
-    if any((f[0], f[1], f[2]) != (first[0], first[1], first[2]) for f in found):
-        raise Undecided('visit_StringNode: single-line paths emit differently')
-    return first
+        acc: T.List[T.Tuple[T.Dict[str, bool], T.List[Piece]]] = [(dict(p.cond_map()), [])]
+        last: T.Optional[ast.AST] = None
+        for st in p.stmts():
+            for c in [c for c in walk_no_nested(st) if isinstance(c, ast.Call)]:
+                if not (isinstance(c.func, ast.Attribute) and norm(c.func.value) == 'self' and c.args):
+                    continue
+                if c.func.attr == 'append_padded':
+                    raise Undecided('visit_StringNode: padded emission')
+                if c.func.attr != 'append':
+                    continue
+                env = SP.sym_exec(p, stop=st)      # locals bound first (`prefix = ...`, `body = self.escape(...)`) are read through
+                parts = _flatten_add(SP._Subst(env).visit(copy.deepcopy(c.args[0])))
+                acc = [(cd2, pcs + pcs2) for cd, pcs in acc for cd2, pcs2 in _expand(parts, cd, vt)]
+                if any(vt in norm(x) for x in parts):
+                    last = c
+        for cd, pcs in acc:
+            rows.append((cd, pcs, last or fn))
+    # atoms other than the two flags are tolerated only when they hold on every row (the assert on the value type)
+    for cd, _, _ in rows:
+        for k, v in cd.items():
+            if k not in (fa, ma) and not all(r[0].get(k) == v for r in rows):
+                raise Undecided(f'visit_StringNode: emission depends on {k}')
+    out: T.Dict[T.Tuple[bool, bool], T.Tuple[str, str, ast.AST, ast.AST]] = {}
+    for f in (False, True):
+        for m in (False, True):
+            fire = [r for r in rows if r[0].get(fa, f) == f and r[0].get(ma, m) == m]
+            shapes = {tuple(x if isinstance(x, str) else '\0' + norm(x) for x in r[1]) for r in fire}
+            if len(shapes) != 1:
+                raise Undecided(f'visit_StringNode: {len(shapes)} different emissions for is_fstring={f}, is_multiline={m}')
+            pcs = fire[0][1]
+            vidx = [i for i, x in enumerate(pcs) if not isinstance(x, str)]
+            if len(vidx) != 1:
+                raise Undecided(f'visit_StringNode: the value is emitted {len(vidx)} times for is_fstring={f}, is_multiline={m}')
+            pre = ''.join(T.cast(T.List[str], pcs[:vidx[0]]))
+            post = ''.join(T.cast(T.List[str], pcs[vidx[0] + 1:]))
+            out[(f, m)] = (pre, post, T.cast(ast.AST, pcs[vidx[0]]), fire[0][2])
+    return out
 
 
 def _translate_table(ctx: RuleCtx, pmod: Module, e: ast.AST, arg: str, depth: int = 0) -> T.Dict[int, T.Any]:
@@ -326,7 +368,41 @@ def r2(ctx: RuleCtx) -> None:
     if "value[2 if tid == 'fstring' else 1:-1]" not in norm(lex):
         raise Undecided('Lexer.lex does not strip the quotes with value[2 if tid == "fstring" else 1:-1]')
 
-    pre, post, table, construct = _string_emission(ctx, pmod)
+    # StringNode derives its two flags from the token id: is_multiline = 'multiline' in tid, is_fstring = 'fstring' in tid
+    sinit = norm(mmod.func('StringNode.__init__'))
+    if "self.is_multiline = 'multiline' in token.tid" not in sinit or "self.is_fstring = 'fstring' in token.tid" not in sinit:
+        raise Undecided('StringNode.__init__ does not derive is_multiline / is_fstring from the token id')
+    kinds = fold_const(ctx.repo, mmod, 'ALL_STRINGS')
+    tid_of = {('fstring' in t, 'multiline' in t): t for t in sorted(kinds)}
+    if len(tid_of) != 4 or len(kinds) != 4:
+        raise Undecided(f'ALL_STRINGS {sorted(kinds)} does not give one token per (fstring, multiline) combination')
+    emis = _string_emission_table(ctx, pmod)
+    node_p = [a.arg for a in pmod.func('AstPrinter.visit_StringNode').args.args][1]
+    # decision table over is_fstring x is_multiline: the constant text around the value is an (empty) literal of exactly that token kind
+    for (f, m), (pre_w, post_w, vexpr, cons) in sorted(emis.items()):
+        tr = token_regex(ctx, mmod, tid_of[(f, m)])
+        others = [t for k, t in tid_of.items() if k != (f, m) and rx.full_matches(token_regex(ctx, mmod, t).pattern, pre_w + post_w, token_regex(ctx, mmod, t).flags)]
+        ok = rx.full_matches(tr.pattern, pre_w + post_w, tr.flags) and not others
+        ctx.require(ok, f'is_fstring={f}, is_multiline={m}: written as {pre_w!r} <value> {post_w!r}, a {tid_of[(f, m)]} token and no other string token', pmod,
+                    'AstPrinter.visit_StringNode', f'delimiters for is_fstring={f}, is_multiline={m}',
+                    f'a StringNode with is_fstring={f}, is_multiline={m} (token {tid_of[(f, m)]}) is written as {pre_w!r} + value + {post_w!r}, which is '
+                    + (f'read back as a {others[0]} token' if others else 'not a string token of the lexer')
+                    + ': the string changes its kind (an f-string loses/gains its `f`, its @var@ substitutions are no longer performed) or the file stops parsing', cons)
+        if m:
+            ctx.require(norm(vexpr) == f'{node_p}.value', f'is_fstring={f}, multi-line: the raw value is written unchanged', pmod, 'AstPrinter.visit_StringNode',
+                        f'multi-line value (is_fstring={f})', f'a multi-line string is not escape-decoded when read, but it is written as {short(vexpr)}', cons)
+    singles = {f: emis[(f, False)] for f in (False, True)}
+    tables = {}
+    for f, (pre_w, post_w, vexpr, cons) in singles.items():
+        tables[f] = None if norm(vexpr) == f'{node_p}.value' else _translate_table(ctx, pmod, vexpr, f'{node_p}.value')
+    if tables[False] != tables[True]:
+        raise Undecided('visit_StringNode: plain and f single-line strings are escaped with different tables')
+    table = tables[False]
+    construct = singles[False][3]
+    pre, post = singles[False][0], singles[False][1]
+    fpre = singles[True][0]
+    if not (len(pre) == 1 and len(post) == 1 and fpre == 'f' + pre and singles[True][1] == post):
+        raise Undecided(f'visit_StringNode: single-line delimiters {pre!r}/{post!r} and {fpre!r}/{singles[True][1]!r} are not what Lexer.lex strips')
     where = 'AstPrinter' if table is not None else 'AstPrinter.visit_StringNode'
     images: T.Dict[str, str] = {}
     for k, v in (table or {}).items():
@@ -334,13 +410,8 @@ def r2(ctx: RuleCtx) -> None:
             raise Undecided(f'escape table value {v!r} is not a string')
         images[chr(k)] = v
     ctx.note(f'single-line strings are written as {pre!r} + translate(value) + {post!r}; table = ' + (repr(images) if table is not None else 'identity'))
-    tokens = {'': token_regex(ctx, mmod, 'string'), 'f': token_regex(ctx, mmod, 'fstring')}
+    tokens = {'': token_regex(ctx, mmod, tid_of[(False, False)]), 'f': token_regex(ctx, mmod, tid_of[(True, False)])}
     nfas = {p: rx.build(r.pattern, r.flags) for p, r in tokens.items()}
-
-    # delimiters: the empty literal is a token, and the lexer strips what the printer adds
-    ctx.require(len(pre) == 1 and len(post) == 1 and all(_nfa_full(n, p + pre + post) for p, n in nfas.items()),
-                f'delimiters {pre!r} ... {post!r} form a string / fstring token', pmod, 'AstPrinter.visit_StringNode', 'string delimiters',
-                f'the printer wraps a single-line string in {pre!r} ... {post!r}; that is not a string token of the lexer / not what Lexer.lex strips', construct)
 
     # (1) excluded characters of the body class must be escaped
     n_excl = 0
@@ -552,4 +623,5 @@ RULES = [
     Rule('C17.R4', 'bookkeeping: modified/to-sort nodes, sorting, affects_no_other_targets guards', SP.r4),
     Rule('C17.R5', 'StringNode from a raw value switches escape decoding off', r5),
     Rule('C17.R6', 'default-options removal pattern is key-delimited and applied start-anchored', SP.r6),
+    Rule('C17.R7', 'work lists consumed by apply_changes are emptied before it runs again', SP.r7),
 ]
